@@ -122,5 +122,74 @@ pub fn extern_map(g: &Grammar) -> BTreeMap<String, String> {
 pub fn load_grammar(repo: &Path) -> Result<Grammar, String> {
     let p = repo.join("parser/src/python.lalrpop");
     let text = std::fs::read_to_string(&p).map_err(|e| format!("{}: {}", p.display(), e))?;
-    crate::grammar::parse_grammar(&text)
+    let mut g = crate::grammar::parse_grammar(&text)?;
+    undo_nonterminal_renames(&mut g);
+    Ok(g)
+}
+
+/// (name, number of macro parameters, declared type, number of alternatives) of every nonterminal
+pub fn nonterminal_signatures(g: &Grammar) -> Vec<(String, usize, String, usize)> {
+    g.defs.iter().map(|d| (d.name.clone(), d.params.len(), d.ty.clone().unwrap_or_default().chars().filter(|c| !c.is_whitespace()).collect(), d.alts.len())).collect()
+}
+
+/// A nonterminal that was merely renamed gets its reviewed name back (refdata/nonterminals.json lists the reviewed
+/// grammar's nonterminals with arity, type and number of alternatives): a reviewed name that no longer exists is
+/// matched with the one new nonterminal of identical arity, type and alternative count. The rules (and the
+/// unparser's position table) name nonterminals; a rename is not a change of the language.
+fn undo_nonterminal_renames(g: &mut Grammar) {
+    let Some(verif) = std::env::var_os("VERIF_DIR") else { return };
+    let Ok(txt) = std::fs::read_to_string(Path::new(&verif).join("refdata/nonterminals.json")) else { return };
+    let Ok(v) = serde_json::from_str::<serde_json::Value>(&txt) else { return };
+    let Some(arr) = v.as_array() else { return };
+    let reference: Vec<(String, usize, String, usize)> = arr.iter().filter_map(|r| Some((r.get(0)?.as_str()?.to_string(), r.get(1)?.as_u64()? as usize, r.get(2)?.as_str()?.to_string(), r.get(3)?.as_u64()? as usize))).collect();
+    let current = nonterminal_signatures(g);
+    let cur_names: std::collections::BTreeSet<&String> = current.iter().map(|c| &c.0).collect();
+    let ref_names: std::collections::BTreeSet<&String> = reference.iter().map(|c| &c.0).collect();
+    let mut map: BTreeMap<String, String> = BTreeMap::new();
+    for r in &reference {
+        if cur_names.contains(&r.0) {
+            continue;
+        }
+        let cands: Vec<&(String, usize, String, usize)> = current.iter().filter(|c| !ref_names.contains(&c.0) && c.1 == r.1 && c.2 == r.2 && c.3 == r.3).collect();
+        let competitors = reference.iter().filter(|x| !cur_names.contains(&x.0) && x.1 == r.1 && x.2 == r.2 && x.3 == r.3).count();
+        if cands.len() == 1 && competitors == 1 {
+            map.insert(cands[0].0.clone(), r.0.clone());
+        }
+    }
+    if map.is_empty() {
+        return;
+    }
+    fn fix_sym(s: &mut crate::grammar::Sym, map: &BTreeMap<String, String>) {
+        match &mut s.kind {
+            crate::grammar::SymKind::Name(n) => {
+                if let Some(r) = map.get(n) {
+                    *n = r.clone();
+                }
+            }
+            crate::grammar::SymKind::Macro(n, args) => {
+                if let Some(r) = map.get(n) {
+                    *n = r.clone();
+                }
+                for a in args.iter_mut() {
+                    fix_sym(a, map);
+                }
+            }
+            crate::grammar::SymKind::Group(v) => {
+                for a in v.iter_mut() {
+                    fix_sym(a, map);
+                }
+            }
+            _ => {}
+        }
+    }
+    for d in g.defs.iter_mut() {
+        if let Some(r) = map.get(&d.name) {
+            d.name = r.clone();
+        }
+        for a in d.alts.iter_mut() {
+            for s in a.syms.iter_mut() {
+                fix_sym(s, &map);
+            }
+        }
+    }
 }
